@@ -127,7 +127,7 @@ def model_pass(ctx, name, prefixes):
     if "TypeOK" in predicted:
         raise vlib.Infra("NodeAcct model violates TypeOK: %s" % example["TypeOK"])
     ctx.stage("model-pass-" + name, distinct=r.distinct, generated=r.generated, depth=r.depth, wall=round(r.wall, 1), edges=nedges,
-              predicted_first_failures=predicted,
+              predicted_first_failures={k: v for k, v in sorted(predicted.items()) if any(k.startswith(x) for x in prefixes)},
               note="model-level failures are predictions; every one is replayed on the real NodeInfo below")
     return edges_path, m
 
